@@ -2,7 +2,7 @@
 # Replays the Go port of dpkg's version comparison against Dpkg::Version (perl) on all ordered
 # pairs of a deterministic sub-universe. Prints "pairs=N disagreements=M"; exit 1 if M>0.
 cd "$(dirname "$0")/.."
-./.work/vcheck -dumpref debian -dumpmax "${1:-700}" > .work/dpkg_pairs.txt || exit 2
+"${VERIF_BIN:-.work}/vcheck" -dumpref debian -dumpmax "${1:-700}" > .work/dpkg_pairs.txt || exit 2
 perl -MDpkg::Version -e '
 my ($n,$bad)=(0,0);
 while(<STDIN>){chomp; my($a,$b,$want)=split / /; 
